@@ -183,6 +183,26 @@ def space(kind, tier, seed=0):
     if "@" in kind:
         kind, t = kind.split("@")
         only_tps = int(t)
+    if kind.startswith("dag:"):
+        # branching DAGs through every shipped scheduler, OOM->retry and (priority) preemption->resume
+        algo = kind[4:]
+        cfgs = {"naive": [(1, 2, 8, True, False), (2, 2, 4, False, False)],
+                "starter": [(1, 2, 8, True, False), (2, 2, 4, False, False)],
+                "overbook": [(1, 2, 4, True, True), (2, 1, 8, True, True)],
+                "priority": [(1, 1, 25, True, False), (1, 10, 25, True, False), (1, 10, 25, False, False), (2, 1, 40, True, False)],
+                "priority-pool": [(2, 1, 25, True, False), (2, 10, 25, True, False)]}[algo]
+        for tps in ((1,) if q else (1, 2)):
+            shapes = list(SHAPES)
+            profsets = [("s1",), ("s2", "s1"), ("s1", "over"), ("over", "s1")]
+            wl = workloads(tps, (("B", "I"), shapes, profsets, (0,)),
+                           (("B",), shapes, profsets, (0,)) if q else (("B", "I"), shapes, profsets, (0, 1)), None)
+            # a query arriving later forces the priority scheduler to preempt
+            wl2 = [c + (("Q", 2, "single", ("s1",)),) for c in wl if len(c) == 1] + [c + (("Q", 1, "single", ("s1",)),) for c in wl if len(c) == 1]
+            for cfg in cfgs:
+                over = (max(1, int(cfg[2] / 10)) + 0.5) if algo.startswith("priority") else (5.0 if algo in ("naive", "starter") else 3.0)
+                for combo in wl + wl2:
+                    out.append((algo, cfg, combo, tps, dict(over=over)))
+        return out
     if kind == "naive":
         cfgs = [(p, c, r, m, False) for p in ((1, 2) if q else (1, 2, 3)) for c in ((2,) if q else (1, 2)) for r in (4, 8) for m in (True, False)]
         for tps in ((1,) if q else (1, 2)):
